@@ -393,12 +393,16 @@ def check_substep_errors_propagate(run, it):
     choice).  The sub-steps are callee contracts that may raise at any call (decision explored for every call position)."""
     from ..pyvc import Native
     cases = [("ImplicitLeapfrogIntegrator", list(c06.LEAP_LABEL), {}), ("ImplicitMidpointIntegrator", ["_step_a_fwd", "_step_a_adj"], {}),
-             ("ConstrainedLeapfrogIntegrator", ["_step_a", "_step_b"], {"constrained": True})]
+             ("ConstrainedLeapfrogIntegrator", ["_step_a", "_step_b"], {"constrained": True}),
+             # one level down: the retractions (forward and reverse-check) and cotangent projections called by _step_b itself
+             ("ConstrainedLeapfrogIntegrator", ["_h2_flow_retraction_onto_manifold", "_project_onto_cotangent_space"], {"constrained": True, "entry": "_step_b"})]
     errs = ["ConvergenceError", "NonReversibleStepError"]
     MAXC = 8
 
     def h(ctx):
         cls, names, wkw = cases[ctx.choose(len(cases), "class")]
+        wkw = dict(wkw)
+        entry = wkw.pop("entry", "_step")
         err = errs[ctx.choose(len(errs), "error")]
         fail_at = ctx.choose(MAXC, "failing-call")
         w = World(it, ctx, **wkw)
@@ -410,7 +414,7 @@ def check_substep_errors_propagate(run, it):
         t = z3.Real("t")
         calls, box = [], {}
 
-        def rec(ex, self_, state, tt, _n=None):
+        def rec(ex, self_, *a, _n=None):
             calls.append(_n)
             if len(calls) - 1 == fail_at:
                 ecls = ex.interp.module("mici.errors").resolve(err, ex.ctx)
@@ -418,11 +422,11 @@ def check_substep_errors_propagate(run, it):
                 box["at"] = len(calls)
                 raise PyRaise(box["exc"])
         for n_ in names:
-            it.call_contracts[f"{cls}.{n_}"] = Native(lambda ex, self_, state, tt, _n=n_: rec(ex, self_, state, tt, _n), n_)
-        tag = P + f"{cls}._step/sub-step-error-propagates"
+            it.call_contracts[f"{cls}.{n_}"] = Native(lambda ex, self_, *a, _n=n_: rec(ex, self_, *a, _n=_n), n_)
+        tag = P + f"{cls}.{entry}/sub-step-error-propagates"
         try:
             try:
-                w.ex.call(w.ex.getattr(integ, "_step"), [st, t], {})
+                w.ex.call(w.ex.getattr(integ, entry), [st, t], {})
                 raised = None
             except PyRaise as pr:
                 raised = pr.exc
@@ -437,7 +441,7 @@ def check_substep_errors_propagate(run, it):
                                 f"; sub-step calls made: {calls}")
         ctx.run.ob(tag, core.DISCHARGED if ok else core.FAILED, "pyvc", detail=detail, witness=None if ok else {"class": cls, "error": err, "failing_call": box["at"]},
                    text="an IntegratorError raised by a sub-step leaves _step unchanged and no further sub-step is attempted (no silent fallback to another map)")
-    it.explore(h, "substep-errors", roots=[[c, e] for c in range(len(cases)) for e in range(len(errs))])
+    it.explore(h, "substep-errors", roots=[[c, e] for c in range(4) for e in range(len(errs))])
     for cls, names, _ in cases:
         run.function(f"mici.integrators.{cls}._step (error propagation)")
 
